@@ -215,7 +215,8 @@ def run_harness(h, known=(), want_trace=True, deadline=None):
     tracer = FuncTracer()
     state = dict(first=True, stop=False)
     prover = solve.Prover(timeout_ms=h.prove_timeout_ms, int_first=getattr(h, "prove_int_first", False),
-                          arrays=getattr(h, "prove_arrays", None), uf_first=getattr(h, "prove_uf_first", False))
+                          arrays=getattr(h, "prove_arrays", None), uf_first=getattr(h, "prove_uf_first", False),
+                          fresh_smt=getattr(h, "prove_fresh_smt", False))
 
     def body():
         if deadline and time.time() > deadline:
